@@ -9,6 +9,7 @@
    itself (there is no proof that rebuild reaches a congruence-closed state); nothing is concluded
    from pairs the bounded closure does not derive. *)
 From SE Require Import Sem.Closure Sem.ClosureFacts Sem.EgMachine.
+From SE Require Import EGraph.Model EGraph.ModelMachine EGraph.PendingFacts.
 
 Theorem C02_closure_sound : forall pool maxd fuel E terms a b,
   same_cls (gcc_part pool maxd fuel E terms) a b = true ->
@@ -20,6 +21,18 @@ Theorem C02_gcc_sound : forall pool maxd fuel E terms s t,
   gcc pool maxd fuel E terms s t = true -> Deriv E 0 s t.
 Proof. exact gcc_sound. Qed.
 Print Assumptions C02_gcc_sound.
+
+(* "immediately after union returns": the model has no deferred work — when eg_union (or add_expr) returns, the
+   worklist of pending e-nodes is empty, in every reachable state (EGraph/PendingFacts.v).  Whatever the e-graph
+   will ever conclude from the equations asserted so far, it has concluded when the call returns. *)
+Theorem C02_no_deferred_work_after_union : forall l r s b s', eg_union l r s = Ok (b, s') -> pending s' = [].
+Proof. exact eg_union_drains. Qed.
+Print Assumptions C02_no_deferred_work_after_union.
+
+Theorem C02_no_deferred_work_reachable : forall terms ops hs s,
+  run_ops terms ops [] empty_egraph = Ok (hs, s) -> pending s = [].
+Proof. exact reachable_no_pending_empty. Qed.
+Print Assumptions C02_no_deferred_work_reachable.
 
 (* the statement that is NOT proved: the model-level completeness of the e-graph *)
 Definition C02_full : Prop :=
